@@ -56,6 +56,16 @@ CLAIMS = {
         text="Generated trees (incl. a root or nested entry with the listing's own name, prefix-colliding directory names, listings from a few records to ~150 KiB, one stat larger than a 32 KiB chunk) are transferred with a drawn selector (none, all, files, directories, subsets closed under link source) into fresh and populated destinations that may hold an old listing file or (dangling) symlink of that name, merge on/off. The listing is decoded with an independent decoder and must equal the announced STATs in order; content requests must be exactly the selected regular files by their true STAT index; the destination minus the listing must equal the selected entries plus ancestors with stale entries removed; every materialised entry is notified once and nothing else is. Sampled, no proof.",
         note="A root entry with the listing name that is a non-empty directory (or a hard-link source) is outside the domain; merge mode is checked for presence of selected entries only.",
         ref="4 C19"),
+    "C11": dict(
+        technique="rapid-generated trees with hard-link groups x filter stacks through the real Send/Receive pair; stream specification + link-closure monitor on the STAT log, C01's snapshot oracle on the filtered view, walk/Open agreement",
+        text="Generated on-disk trees with hard-link groups of regular files and fifos spread over directories are wrapped in 1-2 nested NewFilterFS levels (include, exclude, follow-paths) and sent with the real sender. The STAT log must satisfy the independent stream specification and every link must name an earlier non-link entry; the transfer must succeed and the destination must equal the filtered walk's entries with a hard-link partition recomputed from source inodes restricted to reported paths; every reported regular file must open through the view with its bytes and every hidden one must not. Sampled, no proof.",
+        note="Walk/Open disagreements on paths where the dependency's MatchesOrParentMatches and MatchesUsingParentResults disagree are the listed known finding; everything else is a violation.",
+        ref="4 C11"),
+    "C16": dict(
+        technique="rapid-generated trees x pattern lists through copy.Copy, three-way differential: written path set vs naive reference filter vs real filtered Walk; snapshot comparison of what was written and of what must stay untouched",
+        text="copy.Copy with include/exclude patterns is run on generated trees into empty and populated destinations (unrelated old files, existing copies of source directories, old non-directories at source paths). The set of written paths must equal the reference filter's kept set plus ancestors and the set a filtered walk reports; nothing else may be created, changed or removed; written entries (including ancestors created on demand) must carry the source's type, bytes, mode, owner and xattrs. Sampled, no proof.",
+        note="Same dependency-divergence known finding as C10 (copy and walk agree with each other there).",
+        ref="4 C16"),
 }
 
 NOT_YET = "check not built yet in this round (planned, see DESIGN.md section 9)"
